@@ -2,7 +2,8 @@
    part 1  eigh: v . diag(w) . v^H = x (abelian), and the sign rule of the fermionic eigh;
    part 2  fermionic svd: (u . diag(s)) @ vh = x at value level;
    part 3  truncation of the svd factors (Model/Truncate.v): explicit form, validity,
-           the three absorb modes, the truncated product and the residual.
+           the three absorb modes, the truncated product, the residual and (with the
+           orthonormality contracts of the per-block routine) the error identity.
    The per-block LAPACK routines are function parameters with explicit contracts
    (DESIGN 2.2); the coefficient ring is any commutative ring with conjugation
    (`CRingLaws`, instances for ZRing and GRing). *)
@@ -10,7 +11,7 @@ From SV Require Import Base.Prelude Base.Sym Base.Tensor Gen.PhasePerm Model.Sec
   Model.Wf Model.Fermi Model.Linalg Model.SymInst Model.Truncate
   Proofs.TensorProofs Proofs.SymLaws Proofs.GroupFacts Proofs.Tdot Proofs.TdotInst Proofs.StructProofs
   Proofs.LazyProofs Proofs.WfProofs Proofs.FermiProofs Proofs.LinalgProofs.
-From Coq Require Import Permutation.
+From Coq Require Import Permutation Ring.
 Local Open Scope nat_scope.
 
 (* ------------------------------------------------------------------ *)
@@ -811,6 +812,80 @@ Proof.
   - apply (Tdot.rsum_single R RL).
 Qed.
 
+(* ------------------------------------------------------------------ *)
+(* algebra of finite sums in a commutative ring with conjugation (used by the error identity) *)
+Section SumAlgebra.
+  Context (R : Ring) (CL : CRingLaws R).
+  Notation T := (RT R).
+  Notation Sum := (rsum R).
+  Notation RL := (cr_sum R CL).
+  Definition rsub (a b : T) : T := radd R a (rneg R b).
+
+  Lemma cring_theory : ring_theory (r0 R) (r1 R) (radd R) (rmul R) rsub (rneg R) eq.
+  Proof.
+    constructor.
+    - exact (radd_0_l R RL).
+    - exact (radd_comm R RL).
+    - exact (radd_assoc R RL).
+    - exact (cr_mul_1_l R CL).
+    - exact (cr_mul_comm R CL).
+    - exact (cr_mul_assoc R CL).
+    - intros a b c. rewrite (cr_mul_comm R CL (radd R a b) c), (cr_distr_l R CL).
+      now rewrite (cr_mul_comm R CL c a), (cr_mul_comm R CL c b).
+    - reflexivity.
+    - exact (cr_add_neg R CL).
+  Qed.
+  Add Ring cring : cring_theory.
+
+  Lemma rsum_mul_l {A} (c : T) (f : A -> T) l : rmul R c (Sum (map f l)) = Sum (map (fun a => rmul R c (f a)) l).
+  Proof.
+    induction l as [|a l IH]; cbn [map]; [cbn [rsum fold_right]; apply (rmul_0_r R RL)|].
+    rewrite !(Tdot.rsum_cons R), (cr_distr_l R CL), IH. reflexivity.
+  Qed.
+
+  Lemma rsum_mul_r {A} (c : T) (f : A -> T) l : rmul R (Sum (map f l)) c = Sum (map (fun a => rmul R (f a) c) l).
+  Proof.
+    rewrite (cr_mul_comm R CL), rsum_mul_l. apply (Tdot.rsum_ext R). intros a _. apply (cr_mul_comm R CL).
+  Qed.
+
+  Lemma rconj_rsum {A} (f : A -> T) l : rconj R (Sum (map f l)) = Sum (map (fun a => rconj R (f a)) l).
+  Proof.
+    induction l as [|a l IH]; cbn [map]; [cbn [rsum fold_right]; apply (cr_conj_0 R CL)|].
+    rewrite !(Tdot.rsum_cons R), (cr_conj_add R CL), IH. reflexivity.
+  Qed.
+
+  Lemma rsum_mul_sum {A B} (f : A -> T) (g : B -> T) la lb :
+    rmul R (Sum (map f la)) (Sum (map g lb)) = Sum (map (fun a => Sum (map (fun b => rmul R (f a) (g b)) lb)) la).
+  Proof. rewrite rsum_mul_r. apply (Tdot.rsum_ext R). intros a _. apply rsum_mul_l. Qed.
+
+  (* |sum_k a_k(l) b_k(r)|^2 summed over l, r  =  sum_{k,k'} <a_k, a_k'> <b_k, b_k'> *)
+  Lemma frob_gram {L Rr K} (a : K -> L -> T) (b : K -> Rr -> T) (ls : list L) (rs : list Rr) (ks : list K) :
+    Sum (map (fun l => Sum (map (fun r =>
+           rmul R (Sum (map (fun k => rmul R (a k l) (b k r)) ks))
+                  (rconj R (Sum (map (fun k => rmul R (a k l) (b k r)) ks)))) rs)) ls)
+    = Sum (map (fun k => Sum (map (fun k' =>
+           rmul R (Sum (map (fun l => rmul R (a k l) (rconj R (a k' l))) ls))
+                  (Sum (map (fun r => rmul R (b k r) (rconj R (b k' r))) rs))) ks)) ks).
+  Proof.
+    set (X := fun l r k k' => rmul R (rmul R (a k l) (rconj R (a k' l))) (rmul R (b k r) (rconj R (b k' r)))).
+    transitivity (Sum (map (fun l => Sum (map (fun r => Sum (map (fun k => Sum (map (fun k' => X l r k k') ks)) ks)) rs)) ls)).
+    { apply (Tdot.rsum_ext R). intros l _. apply (Tdot.rsum_ext R). intros r _.
+      rewrite rconj_rsum, rsum_mul_sum. apply (Tdot.rsum_ext R). intros k _. apply (Tdot.rsum_ext R). intros k' _.
+      unfold X. rewrite (cr_conj_mul R CL). ring. }
+    transitivity (Sum (map (fun k => Sum (map (fun k' => Sum (map (fun l => Sum (map (fun r => X l r k k') rs)) ls)) ks)) ks)).
+    2:{ apply (Tdot.rsum_ext R). intros k _. apply (Tdot.rsum_ext R). intros k' _. now rewrite rsum_mul_sum. }
+    (* reorder  l r k k'  ->  k k' l r *)
+    transitivity (Sum (map (fun l => Sum (map (fun k => Sum (map (fun k' => Sum (map (fun r => X l r k k') rs)) ks)) ks)) ls)).
+    { apply (Tdot.rsum_ext R). intros l _.
+      rewrite (Tdot.rsum_swap R RL (fun r k => Sum (map (fun k' => X l r k k') ks)) rs ks).
+      apply (Tdot.rsum_ext R). intros k _.
+      apply (Tdot.rsum_swap R RL (fun r k' => X l r k k') rs ks). }
+    rewrite (Tdot.rsum_swap R RL (fun l k => Sum (map (fun k' => Sum (map (fun r => X l r k k') rs)) ks)) ls ks).
+    apply (Tdot.rsum_ext R). intros k _.
+    apply (Tdot.rsum_swap R RL (fun l k' => Sum (map (fun r => X l r k k') rs)) ls ks).
+  Qed.
+End SumAlgebra.
+
 (* what `truncated_wf` promises: the surviving (block, count) pairs, the new bond `b`, the factors *)
 Section TruncSpec.
   Context (G : Symmetry) (R : Ring).
@@ -1432,6 +1507,215 @@ Section TruncGen.
       as (Hd & _).
     rewrite <- (Hd l rr Hl Hr). unfold kept_sum, disc_sum. apply sum_split.
   Qed.
+  (* ---------------- the error identity ---------------- *)
+  (* ORTHONORMALITY CONTRACT of the per-block routine: columns of U, rows of Vh *)
+  Context (Horth : forall sec m, In (sec, m) (blocks G R x) -> orth_cols R (Ub m) /\ orth_rows R (Vb m)).
+
+  Definition ceq (k k' : coord G) : bool := ceqb G (fst k) (fst k') && Nat.eqb (snd k) (snd k').
+
+  Lemma ceq_spec k k' : ceq k k' = true <-> k = k'.
+  Proof.
+    unfold ceq. rewrite andb_true_iff, Nat.eqb_eq. destruct k as [c o], k' as [c' o']. cbn [fst snd]. split.
+    - intros [H1 H2]. apply ceqb_spec in H1. now subst.
+    - intros H. inversion H. split; [now apply ceqb_spec | reflexivity].
+  Qed.
+
+  Lemma disc_in k : In k disc_coords ->
+    exists sb n, In (sb, n) blc /\ fst k = col (fst sb) /\ snd k < ncols R (Ub (snd sb)).
+  Proof.
+    unfold disc_coords. rewrite in_flat_map. intros [[sb n] [Hin H]]. cbn [fst snd] in H.
+    apply in_map_iff in H. destruct H as [o [<- Ho]]. apply in_seq in Ho. pose proof (Hle sb n Hin) as Hb.
+    exists sb, n. cbn [fst snd]. repeat split; [exact Hin | lia].
+  Qed.
+
+  Lemma disc_nodup : NoDup disc_coords.
+  Proof.
+    unfold disc_coords. pose proof keysC as Hk. revert Hk. generalize blc. intros l. induction l as [|[sb n] l IH]; intros Hk; [constructor|].
+    cbn [map fst] in Hk. inversion Hk as [|? ? Hni Hnd]; subst. cbn [flat_map fst snd].
+    apply StructProofs.NoDup_app'.
+    - apply FinFun.Injective_map_NoDup; [intros a b H; now inversion H | apply seq_NoDup].
+    - now apply IH.
+    - intros [c o] H1 H2. apply in_map_iff in H1. destruct H1 as [o1 [E1 _]]. inversion E1; subst c o1.
+      apply in_flat_map in H2. destruct H2 as [[sb' n'] [Hin' H2]]. cbn [fst snd] in H2.
+      apply in_map_iff in H2. destruct H2 as [o2 [E2 _]]. inversion E2 as [[Hc Ho]].
+      apply Hni. apply in_map_iff. exists (sb', n'). split; [exact Hc | exact Hin'].
+  Qed.
+
+  (* entries of the untruncated factors through the block that owns the bond charge *)
+  Lemma sem_u0 (sb : blk) r c (l k : coord G) : In sb bl -> fst sb = [r; c] -> fst k = c ->
+    sem G R u0 [l; k] = if ceqb G r (fst l) then get R (Ub (snd sb)) [snd l; snd k] else r0 R.
+  Proof.
+    destruct l as [c0 i], k as [ck o]. cbn [fst snd]. intros Hin E Hck. subst ck. destruct sb as [s m]. cbn [fst snd] in *. subst s. unfold sem. cbn [map fst snd].
+    destruct (ceqb G r c0) eqn:E0.
+    - apply ceqb_spec in E0. subst c0.
+      pose proof (left_lookup G HG R (svd_uv R svd_blk) x i0 i1 Hx _ m Hin) as H. fold u0 in H. now rewrite H.
+    - assert (Hno : lookup keq [c0; c] (blocks G R u0) = None).
+      { apply (left_lookup_none G HG R (svd_uv R svd_blk) x i0 i1).
+        apply (StructProofs.lookup_None keq keq_spec). intros Hk'. unfold keys in Hk'. apply in_map_iff in Hk'.
+        destruct Hk' as [[s' t'] [Es Hst]]. cbn [fst] in Es. subst s'.
+        pose proof (row_unique _ _ Hin Hst eq_refl) as Hru. cbn [fst] in Hru. inversion Hru. subst c0.
+        rewrite (proj2 (ceqb_spec _ _) eq_refl) in E0. discriminate. }
+      now rewrite Hno.
+  Qed.
+
+  Lemma sem_vh0 (sb : blk) r c (k rr : coord G) : In sb bl -> fst sb = [r; c] -> fst k = c ->
+    sem G R vh0 [k; rr] = if ceqb G c (fst rr) then get R (Vb (snd sb)) [snd k; snd rr] else r0 R.
+  Proof.
+    destruct k as [ck o], rr as [c1 j]. cbn [fst snd]. intros Hin E Hck. subst ck. destruct sb as [s m]. cbn [fst snd] in *. subst s. unfold sem. cbn [map fst snd].
+    destruct (ceqb G c c1) eqn:E1.
+    - apply ceqb_spec in E1. subst c1.
+      pose proof (right_lookup G HG R (svd_uv R svd_blk) x i0 i1 Hx _ m Hin) as H.
+      unfold col_charge in H. cbn [nth] in H. fold vh0 in H. now rewrite H.
+    - assert (Hno : lookup keq [c; c1] (blocks G R vh0) = None).
+      { apply (StructProofs.lookup_None keq keq_spec). intros Hk'. unfold keys in Hk'. apply in_map_iff in Hk'.
+        destruct Hk' as [[s' t'] [Es Hst]]. cbn [fst] in Es. subst s'. unfold vh0, right_arr in Hst. cbn [blocks] in Hst.
+        apply in_map_iff in Hst. destruct Hst as [sb' [Hs' _]]. assert (Hcc : c = c1) by (inversion Hs'; congruence).
+        subst c1. rewrite (proj2 (ceqb_spec _ _) eq_refl) in E1. discriminate. }
+      now rewrite Hno.
+  Qed.
+
+  Lemma same_block (sb sb' : blk) : In sb bl -> In sb' bl -> fst sb = fst sb' -> sb = sb'.
+  Proof.
+    intros H H' E. destruct sb as [s m], sb' as [s' m']. cbn [fst] in E. subst s'.
+    pose proof (Tdot.lookup_nodup_In keq keq_spec s m bl (mo_nd G R x i0 i1 Hx) H) as L1.
+    pose proof (Tdot.lookup_nodup_In keq keq_spec s m' bl (mo_nd G R x i0 i1 Hx) H') as L2. congruence.
+  Qed.
+
+  Lemma lookup_size ix c : 0 < size_of G ix c -> lookup (ceqb G) c (chargemap G ix) = Some (size_of G ix c).
+  Proof. unfold size_of. destruct (lookup (ceqb G) c (chargemap G ix)); [reflexivity | lia]. Qed.
+
+  Lemma gram_u k k' : In k disc_coords -> In k' disc_coords ->
+    Sum (map (fun l => rmul R (sem G R u0 [l; k]) (rconj R (sem G R u0 [l; k']))) (index_coords G i0))
+    = if ceq k k' then r1 R else r0 R.
+  Proof.
+    intros Hk Hk'. destruct (disc_in k Hk) as (sb & n & Hin & Hc & Ho). destruct (disc_in k' Hk') as (sb' & n' & Hin' & Hc' & Ho').
+    destruct (blk_facts sb n Hin) as (r & c & kk & E & _ & _ & Hr & _ & _ & _ & _ & Hu & _ & _ & Hp0 & _).
+    destruct (blk_facts sb' n' Hin') as (r' & c' & kk' & E' & _ & _ & Hr' & _ & _ & _ & _ & Hu' & _ & _ & _).
+    destruct k as [ck o], k' as [ck' o']. cbn [fst snd] in *. rewrite E in Hc. rewrite E' in Hc'.
+    unfold col_charge in Hc, Hc'. cbn [nth] in Hc, Hc'. subst ck ck'.
+    pose proof (blc_in _ _ Hin) as Hb. pose proof (blc_in _ _ Hin') as Hb'.
+    rewrite (Tdot.rsum_index_coords G R RL). unfold ceq. cbn [fst snd].
+    assert (Hnd0 : NoDup (map fst (chargemap G i0))).
+    { exact (Tdot.wf_index_nodup G cltb_irrefl cltb_trans i0 (mo_wf0 G R x i0 i1 Hx)). }
+    destruct (ceqb G c c') eqn:Ec; cbn [andb].
+    - apply ceqb_spec in Ec. subst c'.
+      assert (Es : fst sb' = fst sb) by (apply row_unique; try assumption; rewrite E, E'; reflexivity).
+      pose proof (same_block sb' sb Hb' Hb Es) as Esb. subst sb'. rewrite E in E'. inversion E'; subst r'. clear E'.
+      transitivity (Sum (map (fun p : C G * nat => if ceqb G r (fst p)
+            then Sum (map (fun i => rmul R (get R (Ub (snd sb)) [i; o]) (rconj R (get R (Ub (snd sb)) [i; o']))) (seq 0 (snd p)))
+            else r0 R) (chargemap G i0))).
+      { apply (Tdot.rsum_ext R). intros p _. destruct (ceqb G r (fst p)) eqn:Er.
+        - apply (Tdot.rsum_ext R). intros i _. cbv beta. rewrite (sem_u0 sb r c (fst p, i) (c, o) Hb E eq_refl), (sem_u0 sb r c (fst p, i) (c, o') Hb E eq_refl). cbn [fst snd]. now rewrite Er.
+        - apply (Tdot.rsum_zero R RL). intros i _. cbv beta. rewrite (sem_u0 sb r c (fst p, i) (c, o) Hb E eq_refl). cbn [fst snd]. rewrite Er. apply (rmul_0_l R RL). }
+      rewrite (Tdot.rsum_lookup R RL (ceqb G) ceqb_spec (chargemap G i0) r
+                 (fun d => Sum (map (fun i => rmul R (get R (Ub (snd sb)) [i; o]) (rconj R (get R (Ub (snd sb)) [i; o']))) (seq 0 d))) Hnd0).
+      rewrite (lookup_size i0 r Hp0).
+      destruct sb as [s m]. cbn [fst snd] in *.
+      destruct (Horth s m Hb) as [Hoc _]. unfold ncols in Ho, Ho'. rewrite Hu in Ho, Ho'. cbn [nth] in Ho, Ho'.
+      specialize (Hoc o' o). rewrite Hu in Hoc. cbn [nth] in Hoc. specialize (Hoc Ho' Ho).
+      rewrite Nat.eqb_sym, <- Hoc. apply (Tdot.rsum_ext R). intros i _. apply (cr_mul_comm R CL).
+    - apply (Tdot.rsum_zero R RL). intros p _. apply (Tdot.rsum_zero R RL). intros i _.
+      rewrite (sem_u0 sb r c (fst p, i) (c, o) Hb E eq_refl), (sem_u0 sb' r' c' (fst p, i) (c', o') Hb' E' eq_refl). cbn [fst snd].
+      destruct (ceqb G r (fst p)) eqn:Er; [|apply (rmul_0_l R RL)].
+      destruct (ceqb G r' (fst p)) eqn:Er'; [|rewrite (cr_conj_0 R CL); apply (rmul_0_r R RL)].
+      exfalso. apply ceqb_spec in Er. apply ceqb_spec in Er'.
+      assert (Es : fst sb' = fst sb).
+      { apply (row_determines_col G HG R x i0 i1 Hx); [| | ]; unfold sectors; try (now apply in_map).
+        rewrite E, E'. unfold row_charge. cbn [nth]. congruence. }
+      rewrite E, E' in Es. inversion Es. subst. rewrite (proj2 (ceqb_spec _ _) eq_refl) in Ec. discriminate.
+  Qed.
+
+  Lemma gram_v k k' : In k disc_coords -> In k' disc_coords ->
+    Sum (map (fun rr => rmul R (sem G R vh0 [k; rr]) (rconj R (sem G R vh0 [k'; rr]))) (index_coords G i1))
+    = if ceq k k' then r1 R else r0 R.
+  Proof.
+    intros Hk Hk'. destruct (disc_in k Hk) as (sb & n & Hin & Hc & Ho). destruct (disc_in k' Hk') as (sb' & n' & Hin' & Hc' & Ho').
+    destruct (blk_facts sb n Hin) as (r & c & kk & E & _ & _ & _ & _ & _ & _ & _ & Hu & _ & Hv & _ & Hp1).
+    destruct (blk_facts sb' n' Hin') as (r' & c' & kk' & E' & _ & _ & _ & _ & _ & _ & _ & _ & _ & _ & _).
+    destruct k as [ck o], k' as [ck' o']. cbn [fst snd] in *. rewrite E in Hc. rewrite E' in Hc'.
+    unfold col_charge in Hc, Hc'. cbn [nth] in Hc, Hc'. subst ck ck'.
+    pose proof (blc_in _ _ Hin) as Hb. pose proof (blc_in _ _ Hin') as Hb'.
+    rewrite (Tdot.rsum_index_coords G R RL). unfold ceq. cbn [fst snd].
+    assert (Hnd1 : NoDup (map fst (chargemap G i1))).
+    { exact (Tdot.wf_index_nodup G cltb_irrefl cltb_trans i1 (mo_wf1 G R x i0 i1 Hx)). }
+    destruct (ceqb G c c') eqn:Ec; cbn [andb].
+    - apply ceqb_spec in Ec. subst c'.
+      assert (Es : fst sb' = fst sb) by (apply row_unique; try assumption; rewrite E, E'; reflexivity).
+      pose proof (same_block sb' sb Hb' Hb Es) as Esb. subst sb'. rewrite E in E'. inversion E'; subst r'. clear E'.
+      transitivity (Sum (map (fun p : C G * nat => if ceqb G c (fst p)
+            then Sum (map (fun j => rmul R (get R (Vb (snd sb)) [o; j]) (rconj R (get R (Vb (snd sb)) [o'; j]))) (seq 0 (snd p)))
+            else r0 R) (chargemap G i1))).
+      { apply (Tdot.rsum_ext R). intros p _. destruct (ceqb G c (fst p)) eqn:Er.
+        - apply (Tdot.rsum_ext R). intros j _. cbv beta. rewrite (sem_vh0 sb r c (c, o) (fst p, j) Hb E eq_refl), (sem_vh0 sb r c (c, o') (fst p, j) Hb E eq_refl). cbn [fst snd]. now rewrite Er.
+        - apply (Tdot.rsum_zero R RL). intros j _. cbv beta. rewrite (sem_vh0 sb r c (c, o) (fst p, j) Hb E eq_refl). cbn [fst snd]. rewrite Er. apply (rmul_0_l R RL). }
+      rewrite (Tdot.rsum_lookup R RL (ceqb G) ceqb_spec (chargemap G i1) c
+                 (fun d => Sum (map (fun j => rmul R (get R (Vb (snd sb)) [o; j]) (rconj R (get R (Vb (snd sb)) [o'; j]))) (seq 0 d))) Hnd1).
+      rewrite (lookup_size i1 c Hp1).
+      destruct sb as [s m]. cbn [fst snd] in *.
+      destruct (Horth s m Hb) as [_ Hor]. unfold ncols in Ho, Ho'. rewrite Hu in Ho, Ho'. cbn [nth] in Ho, Ho'.
+      specialize (Hor o o'). rewrite Hv in Hor. cbn [nth] in Hor. exact (Hor Ho Ho').
+    - apply (Tdot.rsum_zero R RL). intros p _. apply (Tdot.rsum_zero R RL). intros j _.
+      rewrite (sem_vh0 sb r c (c, o) (fst p, j) Hb E eq_refl), (sem_vh0 sb' r' c' (c', o') (fst p, j) Hb' E' eq_refl). cbn [fst snd].
+      destruct (ceqb G c (fst p)) eqn:Er; [|apply (rmul_0_l R RL)].
+      destruct (ceqb G c' (fst p)) eqn:Er'; [|rewrite (cr_conj_0 R CL); apply (rmul_0_r R RL)].
+      exfalso. apply ceqb_spec in Er. apply ceqb_spec in Er'. subst. rewrite (proj2 (ceqb_spec _ _) eq_refl) in Ec. discriminate.
+  Qed.
+
+  Lemma sum_all_coords2 (F : list (coord G) -> RT R) (a b : index G) :
+    Sum (map F (all_coords G [a; b]))
+    = Sum (map (fun l => Sum (map (fun r => F [l; r]) (index_coords G b))) (index_coords G a)).
+  Proof.
+    unfold all_coords. cbn [map product]. rewrite (Tdot.rsum_flat_map R RL).
+    apply (Tdot.rsum_ext R). intros l _. rewrite map_map, (Tdot.rsum_flat_map R RL).
+    apply (Tdot.rsum_ext R). intros r _. cbn [map]. apply (Tdot.rsum_single R RL).
+  Qed.
+
+  Add Ring cring_local : (cring_theory R CL).
+
+  Theorem error_identity_one mode res :
+    (mode = AbsBoth -> sqrt_ok) ->
+    (forall sec m, In (sec, m) (blocks G R x) -> svd_product R svd_blk m) ->
+    a_matmul G R (UA (fuM mode)) (VA (fvM mode)) = Some res ->
+    Sum (map (fun cs => let d := radd R (sem G R x cs) (rneg R (sem G R res cs)) in rmul R d (rconj R d))
+             (all_coords G (indices G R x)))
+    = Sum (map (fun k => rmul R (vsem G R s0 k) (rconj R (vsem G R s0 k))) disc_coords).
+  Proof.
+    intros Hsq Hp Hres. rewrite (mo_ix G R x i0 i1 Hx), sum_all_coords2.
+    assert (Hnd0 : NoDup (icharges G i0)) by exact (Tdot.wf_index_nodup G cltb_irrefl cltb_trans i0 (mo_wf0 G R x i0 i1 Hx)).
+    assert (Hnd1 : NoDup (icharges G i1)) by exact (Tdot.wf_index_nodup G cltb_irrefl cltb_trans i1 (mo_wf1 G R x i0 i1 Hx)).
+    set (a := fun (k : coord G) (l : coord G) => rmul R (sem G R u0 [l; k]) (vsem G R s0 k)).
+    set (b := fun (k : coord G) (rr : coord G) => sem G R vh0 [k; rr]).
+    transitivity (Sum (map (fun l => Sum (map (fun rr =>
+        rmul R (Sum (map (fun k => rmul R (a k l) (b k rr)) disc_coords))
+               (rconj R (Sum (map (fun k => rmul R (a k l) (b k rr)) disc_coords)))) (index_coords G i1))) (index_coords G i0))).
+    { apply (Tdot.rsum_ext R). intros l Hl. apply (Tdot.rsum_ext R). intros rr Hr. cbv zeta.
+      assert (Hl' : coords_ok G [i0] [l] = true) by (apply (coords_ok_1 G); now apply (index_coords_in G HG)).
+      assert (Hr' : coords_ok G [i1] [rr] = true) by (apply (coords_ok_1 G); now apply (index_coords_in G HG)).
+      destruct (truncated_residual_one mode l rr Hsq Hp Hl' Hr') as [res' [Hres' [_ Hx']]].
+      rewrite Hres in Hres'. injection Hres' as <-.
+      assert (Ed : radd R (sem G R x [l; rr]) (rneg R (sem G R res [l; rr])) = disc_sum l rr).
+      { rewrite Hx'. generalize (sem G R res [l; rr]) (disc_sum l rr). intros p q.
+        rewrite (radd_comm R RL p q), <- (radd_assoc R RL), (cr_add_neg R CL). apply (Tdot.radd_0_r R RL). }
+      rewrite Ed. reflexivity. }
+    rewrite (frob_gram R CL a b (index_coords G i0) (index_coords G i1) disc_coords).
+    apply (Tdot.rsum_ext R). intros k Hk.
+    transitivity (Sum (map (fun k' => if ceq k' k then rmul R (vsem G R s0 k) (rconj R (vsem G R s0 k)) else r0 R) disc_coords)).
+    2:{ apply (Tdot.rsum_pick R RL ceq ceq_spec); [exact disc_nodup | exact Hk]. }
+    apply (Tdot.rsum_ext R). intros k' Hk'.
+    assert (EA : Sum (map (fun l => rmul R (a k l) (rconj R (a k' l))) (index_coords G i0))
+                 = rmul R (rmul R (vsem G R s0 k) (rconj R (vsem G R s0 k'))) (if ceq k k' then r1 R else r0 R)).
+    { rewrite <- (gram_u k k' Hk Hk'), (rsum_mul_l R CL). apply (Tdot.rsum_ext R). intros l _. unfold a.
+      rewrite (cr_conj_mul R CL).
+      generalize (sem G R u0 [l; k]) (vsem G R s0 k) (rconj R (sem G R u0 [l; k'])) (rconj R (vsem G R s0 k')).
+      intros p q p' q'. ring. }
+    rewrite EA. unfold b. rewrite (gram_v k k' Hk Hk').
+    destruct (ceq k k') eqn:Ek.
+    - apply ceq_spec in Ek. subst k'. rewrite (proj2 (ceq_spec k k) eq_refl).
+      rewrite !(cr_mul_comm R CL _ (r1 R)), !(cr_mul_1_l R CL). reflexivity.
+    - assert (Ek' : ceq k' k = false).
+      { destruct (ceq k' k) eqn:E2; [|reflexivity]. apply ceq_spec in E2. subst k'. rewrite (proj2 (ceq_spec k k) eq_refl) in Ek. discriminate. }
+      rewrite Ek'. apply (rmul_0_r R RL).
+  Qed.
 End TruncGen.
 
 (* ------------------------------------------------------------------ *)
@@ -1547,10 +1831,10 @@ Section TruncFinal.
   Qed.
 End TruncFinal.
 
-(* NOT PROVED (kept as a statement): with orthonormal columns of every U block and orthonormal
-   rows of every Vh block, the squared Frobenius norm of x - product is the sum of the
-   discarded |s|^2.  Missing: the double-sum expansion of |sum_k u s vh|^2 with the
-   orthonormality of U / Vh across blocks (different bond charges have disjoint supports). *)
+(* ERROR IDENTITY: with orthonormal columns of every U block and orthonormal rows of every Vh
+   block (per-block LAPACK contract; different bond charges have disjoint supports, so the
+   factors are orthonormal across blocks), the squared Frobenius norm of x - product is the
+   sum of the discarded |s|^2 *)
 Definition error_identity_stmt : Prop :=
   forall (G : Symmetry) (R : Ring) (svd_blk : tensor R -> tensor R * tensor R * tensor R) (sqrt_blk : tensor R -> tensor R)
          (x u : aarray G R) (s : bvec G R) (vh : aarray G R) (counts : list nat) (mode : absorb_mode)
@@ -1570,6 +1854,16 @@ Definition error_identity_stmt : Prop :=
     rsum R (map (fun cs => let d := radd R (sem G R x cs) (rneg R (sem G R res cs)) in rmul R d (rconj R d))
                 (all_coords G (indices G R x)))
     = rsum R (map (fun k => rmul R (vsem G R s k) (rconj R (vsem G R s k))) (disc_coords G R svd_blk x counts)).
+
+Theorem error_identity : error_identity_stmt.
+Proof.
+  intros G R svd_blk sqrt_blk x u s vh counts mode U' VH' res HG CL Hirr Htr Htot Hshapes Hw Hn [Hlen Hle] Hall Hs Hsq Ht Hm.
+  rewrite (a_svd_eq G HG R svd_blk x Hw Hn) in Hs. injection Hs as _ <- _.
+  destruct (truncated_wf_one G HG R Hirr Htr Htot svd_blk Hshapes x Hw Hn counts Hlen Hle sqrt_blk) as (_ & _ & _ & Em).
+  rewrite (proj1 (Em mode)) in Ht. injection Ht as <- <-.
+  apply (error_identity_one G HG R CL Hirr Htr Htot svd_blk Hshapes x Hw Hn counts Hlen Hle sqrt_blk
+           (fun sec m H => proj2 (Hall sec m H)) mode res Hsq (fun sec m H => proj1 (Hall sec m H)) Hm).
+Qed.
 
 (* ------------------------------------------------------------------ *)
 (* Examples for part 3: Z2, integers, odd charge, a 2x2 and a 1x3 block; the per-block "svd"
@@ -1671,3 +1965,74 @@ Module TruncEx.
   Example disc_12 : disc_coords Z2 ZRing svd_sq x2 [1; 2]%nat = [(1, 1%nat); (0, 2%nat)].
   Proof. vm_compute. reflexivity. Qed.
 End TruncEx.
+
+(* Example for the error identity: blocks with genuinely orthonormal factors over the integers
+   (U a permutation, Vh rows of the identity): (0,1) |-> [[0,9],[4,0]] = P . diag(4,9) . I and
+   (1,0) |-> [[0,4,0]] = [1] . diag(4) . [0 1 0].  counts (1, 1) discard the value 9: error 81. *)
+Module ErrEx.
+  Import LinalgEx.
+  Local Open Scope Z_scope.
+  Definition B1 : tensor ZRing := @mkT ZRing [2; 2]%nat [0; 9; 4; 0].
+  Definition B2 : tensor ZRing := @mkT ZRing [1; 3]%nat [0; 4; 0].
+  Definition svd_o (m : tensor ZRing) : tensor ZRing * tensor ZRing * tensor ZRing :=
+    if tensor_eqb ZRing m B1 then (@mkT ZRing [2; 2]%nat [0; 1; 1; 0], @mkT ZRing [2]%nat [4; 9], eye 2)
+    else if tensor_eqb ZRing m B2 then (@mkT ZRing [1; 1]%nat [1], @mkT ZRing [1]%nat [4], @mkT ZRing [1; 3]%nat [0; 1; 0])
+    else (tzeros ZRing [sh0 ZRing m; sh1 ZRing m], tzeros ZRing [sh1 ZRing m], eye (sh1 ZRing m)).
+  Definition x3 : aarray Z2 ZRing :=
+    mkA Z2 ZRing [Index Z2 [(0, 2%nat); (1, 1%nat)] false None; Index Z2 [(0, 3%nat); (1, 2%nat)] true None] 1
+      [([0; 1], B1); ([1; 0], B2)].
+
+  Example svd_o_shapes : svd_shapes ZRing svd_o.
+  Proof.
+    intros m a b Hm Ha Hb Hl. unfold svd_uv, svd_s, svd_o.
+    destruct (tensor_eqb ZRing m B1) eqn:E1; [|destruct (tensor_eqb ZRing m B2) eqn:E2].
+    - unfold tensor_eqb in E1. apply andb_true_iff in E1. destruct E1 as [E1 _].
+      apply (Tdot.list_eqb_spec Nat.eqb Nat.eqb_eq) in E1. rewrite Hm in E1. inversion E1; subst.
+      exists 2%nat. cbn [fst snd]. repeat split; lia.
+    - unfold tensor_eqb in E2. apply andb_true_iff in E2. destruct E2 as [E2 _].
+      apply (Tdot.list_eqb_spec Nat.eqb Nat.eqb_eq) in E2. rewrite Hm in E2. inversion E2; subst.
+      exists 1%nat. cbn [fst snd]. repeat split; lia.
+    - exists b. unfold sh0, sh1. rewrite Hm. cbn [nth fst snd]. destruct (eye_facts b) as [F1 F2].
+      repeat split; try assumption; apply build_len.
+  Qed.
+
+  Example x3_hyps : wf_array Z2 ZRing x3 = true /\ ndim Z2 ZRing x3 = 2%nat.
+  Proof. vm_compute. split; reflexivity. Qed.
+
+  Example x3_contracts : forall s m, In (s, m) (blocks Z2 ZRing x3) ->
+    svd_product ZRing svd_o m /\ orth_cols ZRing (fst (svd_uv ZRing svd_o m)) /\ orth_rows ZRing (snd (svd_uv ZRing svd_o m)).
+  Proof.
+    intros s m [H|[H|[]]]; inversion H; subst; (split; [|split]); intros i j Hi Hj; vm_compute in Hi, Hj;
+      repeat (destruct i as [|i]; try lia); repeat (destruct j as [|j]; try lia); vm_compute; reflexivity.
+  Qed.
+
+  Example counts_ok_11 : counts_ok Z2 ZRing svd_o x3 [1; 1]%nat.
+  Proof. split; [reflexivity|]. intros sb n [H|[H|[]]]; inversion H; subst; vm_compute; lia. Qed.
+
+  Example sqrt_ok_11 : sqrt_ok Z2 ZRing svd_o x3 [1; 1]%nat sqrt_stub.
+  Proof.
+    intros sb n [H|[H|[]]] Hn' o Ho; inversion H; subst; repeat (destruct o as [|o]; try lia); vm_compute; reflexivity.
+  Qed.
+
+  Example error_instance mode :
+    exists u s vh U' VH' res,
+      a_svd Z2 ZRing svd_o x3 = Some (u, s, vh) /\
+      a_svd_truncated Z2 ZRing svd_o sqrt_stub x3 [1; 1]%nat (Some mode) = Some (U', None, VH') /\
+      a_matmul Z2 ZRing U' VH' = Some res /\
+      rsum ZRing (map (fun cs => let d := sem Z2 ZRing x3 cs + - sem Z2 ZRing res cs in d * d) (all_coords Z2 (indices Z2 ZRing x3)))
+      = rsum ZRing (map (fun k => vsem Z2 ZRing s k * vsem Z2 ZRing s k) (disc_coords Z2 ZRing svd_o x3 [1; 1]%nat)) /\
+      rsum ZRing (map (fun k => vsem Z2 ZRing s k * vsem Z2 ZRing s k) (disc_coords Z2 ZRing svd_o x3 [1; 1]%nat)) = 81.
+  Proof.
+    destruct x3_hyps as [Hw Hn].
+    destruct (a_svd Z2 ZRing svd_o x3) as [[[u s] vh]|] eqn:Es; [|vm_compute in Es; discriminate].
+    destruct (a_svd_truncated Z2 ZRing svd_o sqrt_stub x3 [1; 1]%nat (Some mode)) as [[[U' [|]] VH']|] eqn:Et;
+      try (destruct mode; vm_compute in Et; discriminate).
+    destruct (a_matmul Z2 ZRing U' VH') as [res|] eqn:Em.
+    2:{ destruct mode; vm_compute in Et; injection Et as <- <-; vm_compute in Em; discriminate. }
+    exists u, s, vh, U', VH', res. split; [reflexivity|]. split; [reflexivity|]. split; [exact Em|]. split.
+    - exact (error_identity Z2 ZRing svd_o sqrt_stub x3 u s vh [1; 1]%nat mode U' VH' res Z2_laws ZRing_cring
+               (builtin_cltb_irrefl Z2 bs_Z2) (builtin_cltb_trans Z2 bs_Z2) (builtin_cltb_total Z2 bs_Z2)
+               svd_o_shapes Hw Hn counts_ok_11 x3_contracts Es (fun _ => sqrt_ok_11) Et Em).
+    - vm_compute in Es. injection Es as _ <- _. vm_compute. reflexivity.
+  Qed.
+End ErrEx.
